@@ -1,4 +1,4 @@
-import Props.SlicesGen
+import Props.GenTraverse
 open Model.SlicesGen
 #print axioms traverse_eq
 #print axioms traverse_eq_some
